@@ -20,7 +20,42 @@ from vlib import coqprint as cp
 HEADER = ('From PK Require Import Uid.Cases.\nFrom Coq Require Import List ZArith Bool.\n'
           'Import ListNotations.\nOpen Scope Z_scope.\n')
 
-USERS = ['alice', 'bob', 'carol']
+USERS = ['alice', 'bob', 'carol', 'dave']
+GROUPS = {0: None, 1: ['custodians'], 2: ['other'], 3: ['other', 'custodians'], 4: []}
+
+
+def identity(who):
+    """Requesters are encoded as user index + 100 * group code (Uid.Model.user_of / group_code)."""
+    return USERS[who % 100], GROUPS[who // 100]
+
+
+def who_name(who):
+    u, g = identity(who)
+    return u if g is None else '%s%r' % (u, g)
+
+
+def pick_who(rng, custodian=0.12, odd=0.08):
+    x = rng.random()
+    if x < custodian:
+        return rng.randrange(len(USERS)) + 100 * rng.choice([1, 1, 3])
+    if x < custodian + odd:
+        return rng.randrange(len(USERS)) + 100 * rng.choice([2, 4])
+    return rng.randrange(3)
+
+
+def build_policies():
+    """The operation policies every engine of this check runs with: the shipped ones plus 'team' = the default preset
+    and a section for the group 'custodians' that allows every operation to everybody in it."""
+    import copy
+    pol = copy.deepcopy(core_policy.policies)
+    preset = copy.deepcopy(pol['default']['preset'])
+    pol['team'] = {'preset': preset,
+                   'groups': {'custodians': {ot: {o: enums.Policy.ALLOW_ALL for o in ops} for ot, ops in preset.items()}}}
+    return pol
+
+
+def new_engine(work):
+    return kdrv.Engine(workdir=work, policies=build_policies())
 M = enums.CryptographicUsageMask
 ALG = enums.CryptographicAlgorithm
 
@@ -41,6 +76,8 @@ def check_policy_assumption(policies=None):
     Returns a list of discrepancies with the shipped default policy (empty = the assumption holds)."""
     pol = (policies or core_policy.policies).get('default', {}).get('preset', {})
     bad = []
+    if set((policies or core_policy.policies).get('default', {})) != {'preset'}:
+        bad.append(('default', 'sections', sorted((policies or core_policy.policies).get('default', {})), ['preset']))
     read_ops = {'GET', 'GET_ATTRIBUTES', 'GET_ATTRIBUTE_LIST', 'LOCATE'}
     used = set(POLICY_OP.values()) | {'LOCATE', 'DESTROY'}
     for tname, ot in TYPES.items():
@@ -124,26 +161,31 @@ def build_item(spec, ver):
     """spec: abstract item (dict) with targets already resolved (tgt_uid / w_uid / base_uids)."""
     o = spec['op']
     good = spec.get('good', True)
+    opn = [kdrv.attr('OPERATION_POLICY_NAME', 'team')] if spec.get('pol') else []
     if o == 'create':
         mask = None if not good else ((M.ENCRYPT, M.DECRYPT, M.WRAP_KEY, M.DERIVE_KEY) if spec.get('rich') else (M.ENCRYPT, M.DECRYPT))
-        return kdrv.create(mask=mask, names=['n0'], extra=[kdrv.attr('OBJECT_GROUP', 'g0')] if spec.get('rich') else ())
+        return kdrv.create(mask=mask, names=['n0'], extra=([kdrv.attr('OBJECT_GROUP', 'g0')] if spec.get('rich') else []) + opn)
     if o == 'ckp':
+        common = [kdrv.attr('CRYPTOGRAPHIC_ALGORITHM', ALG.RSA), kdrv.attr('CRYPTOGRAPHIC_LENGTH', 1024)] + opn
         if not good:
-            return kdrv.create_key_pair(public=[])
-        return kdrv.create_key_pair()
+            return kdrv.create_key_pair(common=common, public=[])
+        return kdrv.create_key_pair(common=common)
     if o == 'register':
         t = TYPES[spec['t']]
         if not good:
             return (OP.REGISTER, payloads.RegisterRequestPayload(object_type=t, template_attribute=kdrv.template([]), managed_object=None))
         mask = (M.ENCRYPT, M.DECRYPT, M.DERIVE_KEY, M.WRAP_KEY) if spec.get('rich') else (M.ENCRYPT, M.DECRYPT)
-        return kdrv.register(t, mask=mask, names=['n0'])
+        attrs = [kdrv.attr('NAME', kdrv.name_value('n0'), 0)] + opn
+        if t != OT.OPAQUE_DATA:
+            attrs.insert(0, kdrv.attr('CRYPTOGRAPHIC_USAGE_MASK', list(mask)))
+        return kdrv.register(t, attrs=attrs)
     if o == 'derive':
         length = 128 if good else 4096
         t = TYPES[spec['t']]
         if t == OT.SYMMETRIC_KEY:
-            attrs = kdrv.sym_attrs(ALG.AES, length, (M.ENCRYPT, M.DECRYPT, M.DERIVE_KEY))
+            attrs = kdrv.sym_attrs(ALG.AES, length, (M.ENCRYPT, M.DECRYPT, M.DERIVE_KEY)) + opn
         else:
-            attrs = [kdrv.attr('CRYPTOGRAPHIC_LENGTH', length), kdrv.attr('CRYPTOGRAPHIC_USAGE_MASK', [M.DERIVE_KEY])]
+            attrs = [kdrv.attr('CRYPTOGRAPHIC_LENGTH', length), kdrv.attr('CRYPTOGRAPHIC_USAGE_MASK', [M.DERIVE_KEY])] + opn
         return kdrv.derive_key([sid(b) for b in spec['base_uids']], method=enums.DerivationMethod.HASH,
                                params=derivation_params(), attrs=attrs, otype=t)
     if o == 'destroy':
@@ -222,8 +264,8 @@ class Tracker:
         self.by_uid = {}
         self.destroyed = {}      # uid -> index of the event that destroyed it
 
-    def issued(self, uid, owner, t, rich):
-        rec = {'uid': uid, 'owner': owner, 't': t, 'rich': rich, 'active': False}
+    def issued(self, uid, owner, t, rich, pol=0):
+        rec = {'uid': uid, 'owner': owner % 100, 't': t, 'rich': rich, 'active': False, 'pol': pol}
         self.log.append(rec)
         self.by_uid.setdefault(uid, rec)
 
@@ -300,7 +342,7 @@ class Runner:
                     sqlalchemy.event.listen(ds, 'after_cursor_execute', hook)
                 else:
                     sqlalchemy.event.listen(eng.engine._data_store_session_factory, 'after_commit', lambda session: os._exit(0))
-                eng.process(req, USERS[who], None)
+                eng.process(req, *identity(who))
             finally:
                 os._exit(0)
         os.waitpid(pid, 0)
@@ -329,7 +371,7 @@ class Runner:
                          'identifier %d handed to an object created by a request killed at %s was already issued earlier' % (u, point),
                          ev_index, {'identifier': u})
             self.ever.add(u)
-            tr.issued(u, who, t, bool(c.get('rich')))
+            tr.issued(u, who, t, bool(c.get('rich')), 1 if c.get('pol') else 0)
         for u in gone:
             tr.destroyed.setdefault(u, ev_index)
         if self.oracle:
@@ -356,7 +398,7 @@ class Runner:
 
         items = [build_item(c, ver) for c in conc]
         before = eng.dump() if self.oracle else None
-        r = eng.request(items, version=ver, user=USERS[who], groups=None,
+        r = eng.request(items, version=ver, user=identity(who)[0], groups=identity(who)[1],
                         batch_option=(enums.BatchErrorContinuationOption.CONTINUE if cont else None))
         after_next, after_uids = eng.next_uid(), eng.uids()
         ev_index = len(self.events)
@@ -390,8 +432,11 @@ class Runner:
             if cl[0] == 'RIssued':
                 ts = ['TPub', 'TPriv'] if c['op'] == 'ckp' else [c.get('t', 'TSym')]
                 for u, t in zip(cl[1], ts):
-                    tr.issued(u, who, t, bool(c.get('rich')) or c['op'] == 'derive')
+                    tr.issued(u, who, t, bool(c.get('rich')) or c['op'] == 'derive', 1 if c.get('pol') else 0)
             if cl[0] == 'RDestroyed':
+                rec = tr.by_uid.get(cl[1])
+                if rec is not None and (who // 100 != 0 or rec['owner'] != who % 100):
+                    self.ctx.count('destroy.by_non_owner_allowed_by_group')
                 tr.destroyed.setdefault(cl[1], ev_index)
             if cl[0] == 'RFound' and c['op'] == 'addr' and c.get('gate') and c['k'] == 'AActivate' and c.get('tgt_uid') in tr.by_uid:
                 tr.by_uid[c['tgt_uid']]['active'] = True
@@ -427,7 +472,7 @@ class Runner:
             if cl[0] not in ('RNotFound', 'RNotSupported'):
                 self.hit({'kind': 'dead-addressed', 'op': c['op'], 'k': c.get('k')},
                          '%s on destroyed identifier %d by %s answered %s (%s / %r), not "not found"' % (
-                             c.get('k', c['op']), c['tgt_uid'], USERS[who], cl[0], c.get('reason'), c.get('message')),
+                             c.get('k', c['op']), c['tgt_uid'], who_name(who), cl[0], c.get('reason'), c.get('message')),
                          ev_index, {'identifier': c['tgt_uid']})
         if c['op'] in ('addr', 'destroy', 'getwrapped') and c.get('tgt') is None and cl[0] in ('RFound', 'RDestroyed', 'RRefused', 'RDenied', 'RWrapNotFound'):
             # through the placeholder: the object reached must not be a destroyed one
@@ -449,7 +494,7 @@ class Runner:
         if cl[0] == 'RLocated':
             listed = [u for u in cl[1] if u in dead]
             if listed:
-                self.hit({'kind': 'dead-located'}, 'Locate by %s lists destroyed identifiers %r' % (USERS[who], listed), ev_index,
+                self.hit({'kind': 'dead-located'}, 'Locate by %s lists destroyed identifiers %r' % (who_name(who), listed), ev_index,
                          {'identifier': listed[0]})
 
     def oracle_tables(self, ev_index, before, conc, classes, after_uids):
@@ -486,14 +531,15 @@ def strip(c):
 
 def op_term(c):
     o = c['op']
+    pol = 1 if c.get('pol') else 0
     if o == 'create':
-        return 'OCreate'
+        return '(OCreate %d)' % pol
     if o == 'ckp':
-        return 'OCreateKeyPair'
+        return '(OCreateKeyPair %d)' % pol
     if o == 'register':
-        return '(ORegister %s)' % c['t']
+        return '(ORegister %s %d)' % (c['t'], pol)
     if o == 'derive':
-        return '(ODeriveKey %s %s)' % (cp.lst(c['base_uids'], zt), c['t'])
+        return '(ODeriveKey %s %s %d)' % (cp.lst(c['base_uids'], zt), c['t'], pol)
     if o == 'destroy':
         return '(ODestroy %s)' % opt_z(c['tgt_uid'])
     if o == 'addr':
@@ -516,6 +562,13 @@ def pick_version(rng):
 
 
 def gen_create_spec(rng, tr, cheap=True):
+    s = gen_create_spec0(rng, tr, cheap)
+    if rng.random() < 0.4:
+        s['pol'] = 1                                   # Operation Policy Name 'team'
+    return s
+
+
+def gen_create_spec0(rng, tr, cheap=True):
     x = rng.random()
     if x < 0.40:
         return {'op': 'create', 'good': rng.random() < 0.9, 'rich': rng.random() < 0.5}
@@ -566,8 +619,11 @@ def gen_target(rng, tr, allow_none=True, dead_bias=0.3):
 
 def owner_of(tr, eng, tgt, rng):
     """Identity most likely to be allowed on the target (its owner), sometimes someone else."""
-    if rng.random() < 0.25:
-        return rng.randrange(len(USERS))
+    x = rng.random()
+    if x < 0.2:
+        return rng.randrange(3)
+    if x < 0.42:
+        return pick_who(rng, custodian=0.8, odd=0.2)    # allowed (or not) by a group section, not by ownership
     if tgt is not None and tgt[0] == 'ref' and tgt[1] < len(tr.log):
         return tr.log[tgt[1]]['owner']
     if tgt is not None and tgt[0] == 'newest':
@@ -598,7 +654,7 @@ def gen_history(ctx, rng, run, length, ckp_budget, kill_budget=2):
             run.request(owner_of(tr, eng, tgt, rng), ver, False, [{'op': 'destroy', 'tgt': tgt}])
             if rng.random() < 0.35:
                 run.restart(dispose=rng.random() < 0.5)
-            run.request(rng.randrange(3), pick_version(rng), False, [creating()])
+            run.request(pick_who(rng), pick_version(rng), False, [creating()])
             n += 2
         elif x < 0.17 and kills[0] > 0:                # the server is killed while creating / destroying, then create
             ctx.count('pattern.kill_then_create')
@@ -609,16 +665,16 @@ def gen_history(ctx, rng, run, length, ckp_budget, kill_budget=2):
                 if spec['op'] == 'derive':
                     spec = {'op': 'create', 'good': True, 'rich': True}
                 spec['good'] = True
-                run.killed_request(rng.randrange(3), ver, spec, point)
+                run.killed_request(pick_who(rng), ver, spec, point)
             else:
                 tgt = ['newest']
                 run.killed_request(owner_of(tr, eng, tgt, rng), ver, {'op': 'destroy', 'tgt': tgt}, point)
-            run.request(rng.randrange(3), pick_version(rng), False, [creating()])
+            run.request(pick_who(rng), pick_version(rng), False, [creating()])
             n += 2
         elif x < 0.22:                                 # restart, then create
             ctx.count('pattern.restart_then_create')
             run.restart(dispose=rng.random() < 0.5)
-            run.request(rng.randrange(3), ver, False, [creating()])
+            run.request(pick_who(rng), ver, False, [creating()])
             n += 2
         elif x < 0.30:                                 # batch: create, use / destroy through the placeholder, create again
             ctx.count('pattern.placeholder_batch')
@@ -631,11 +687,11 @@ def gen_history(ctx, rng, run, length, ckp_budget, kill_budget=2):
                     items.append({'op': 'addr', 'k': rng.choice(KINDS), 'tgt': None, 'variant': rng.randrange(4)})
                 else:
                     items.append(creating())
-            run.request(rng.randrange(3), ver, rng.random() < 0.7, items)
+            run.request(pick_who(rng), ver, rng.random() < 0.7, items)
             n += 1
         elif x < 0.50:                                 # a creating operation on its own
             c = creating()
-            who = rng.randrange(3)
+            who = pick_who(rng)
             if c['op'] == 'derive' and rng.random() < 0.8:
                 who = owner_of(tr, eng, c['bases'][0], rng)
             run.request(who, ver, False, [c])
@@ -649,7 +705,7 @@ def gen_history(ctx, rng, run, length, ckp_budget, kill_budget=2):
             run.request(who, ver, False, [{'op': 'destroy', 'tgt': tgt}])
             n += 1
         elif x < 0.70:
-            run.request(rng.randrange(3), ver, False, [{'op': 'locate'}])
+            run.request(pick_who(rng), ver, False, [{'op': 'locate'}])
             n += 1
         elif x < 0.76:                                 # Get wrapped: target and wrapping key chosen independently
             tgt = gen_target(rng, tr, allow_none=False, dead_bias=0.2)
@@ -672,7 +728,7 @@ def gen_history(ctx, rng, run, length, ckp_budget, kill_budget=2):
                     items.append({'op': 'locate'})
                 else:
                     items.append({'op': 'addr', 'k': rng.choice(KINDS), 'tgt': gen_target(rng, tr), 'variant': rng.randrange(4)})
-            run.request(rng.randrange(3), ver, rng.random() < 0.6, items)
+            run.request(pick_who(rng), ver, rng.random() < 0.6, items)
             n += 1
         else:                                          # an addressed operation on its own
             tgt = gen_target(rng, tr)
@@ -719,6 +775,20 @@ def scenarios():
                 ('req', 0, (1, 2), False, [D(['ref', 0])]),
                 ('req', 0, (1, 2), False, [{'op': 'derive', 'bases': [['ref', 0]], 't': 'TSym', 'good': True}]),
                 ('req', 0, (1, 2), False, [{'op': 'getwrapped', 'tgt': ['ref', 0], 'w': ['ref', 2]}])])
+    # Destroy by a requester who is not the owner but allowed by a group section of the object's policy: the
+    # identifier must be dead for everybody afterwards (owner, custodians, strangers), also after a restart
+    T = {'op': 'create', 'good': True, 'rich': True, 'pol': 1}
+    bob_c, carol_c, alice, bob = 101, 302, 0, 1
+    after = []
+    for w in (alice, bob_c, bob, carol_c):
+        after += [('req', w, (1, 2), True, [G(['ref', 0]), G(['ref', 0], 'AGetAttributes'), D(['ref', 0]), {'op': 'locate'},
+                                           G(['ref', 1]), G(['ref', 2]), D(['ref', 2])])]
+    out.append([('req', alice, (1, 2), False, [T]), ('req', alice, (1, 2), False, [T]), ('req', alice, (1, 2), False, [C]),
+                ('req', bob_c, (1, 2), False, [D(['ref', 0])]), ('req', alice, (1, 2), False, [D(['ref', 2])])]
+               + after + [('restart',)] + after +
+               [('req', carol_c, (2, 0), False, [{'op': 'register', 't': 'TCert', 'good': True, 'pol': 1}]),
+                ('req', bob_c, (1, 4), False, [D(['newest'])]), ('req', carol_c, (1, 4), False, [T]),
+                ('req', carol_c, (1, 4), False, [G(['newest'])]), ('req', alice, (1, 4), False, [{'op': 'locate'}])])
     # the server is killed while it creates / destroys, at three points of the transaction; then the next create
     for point in ('after_write', 'before_commit', 'after_commit'):
         out.append([('req', 0, (1, 2), False, [C]), ('killed', 0, (1, 2), C, point), ('req', 1, (1, 2), False, [C]),
@@ -750,11 +820,11 @@ def replay_events(run, events):
             skip_restart = False
         elif ev['ev'] == 'killed':
             it = ev['items'][0]
-            spec = {k: v for k, v in it.items() if k in ('op', 'good', 'rich', 't', 'bases', 'tgt', 'w', 'k', 'variant')}
+            spec = {k: v for k, v in it.items() if k in ('op', 'good', 'rich', 't', 'bases', 'tgt', 'w', 'k', 'variant', 'pol')}
             run.killed_request(ev['who'], tuple(ev['ver']), spec, ev['point'])
             skip_restart = True                        # killed_request records its own restart event
         else:
-            specs = [{k: v for k, v in it.items() if k in ('op', 'good', 'rich', 't', 'bases', 'tgt', 'w', 'k', 'variant')}
+            specs = [{k: v for k, v in it.items() if k in ('op', 'good', 'rich', 't', 'bases', 'tgt', 'w', 'k', 'variant', 'pol')}
                      for it in ev['items']]
             run.request(ev['who'], tuple(ev['ver']), ev['cont'], specs)
 
@@ -764,7 +834,7 @@ def shrink(ctx, events, kind):
     """Greedy event removal while the direct oracle still reports a hit of the same kind."""
     def fails(evs):
         """-> None, or (events as re-observed, first hit of that kind) when the oracle still fires"""
-        eng = kdrv.Engine(workdir=ctx.work)
+        eng = new_engine(ctx.work)
         try:
             run = Runner(NullCtx(ctx.work), eng)
             try:
@@ -815,7 +885,7 @@ def run(ctx):
         'SQLite AUTOINCREMENT semantics (sqlite_sequence persisted with the store) - modelled as a monotone counter, tied by K',
         'harness/kdrv.py + harness/c07.py request builders and the class projection of responses (classify)',
         'model bound: canonical decimal identifier strings; shipped default operation policy, client groups None (checked against kmip/core/policy.py every run)']
-    ctx.prove('props/C07.v', extra_targets=['theories/Uid/Cases.v'])
+    ctx.prove('props/C07.v')
 
     bad_pol = check_policy_assumption()
     if bad_pol:
@@ -827,7 +897,7 @@ def run(ctx):
     all_hits = []
 
     def one(script=None, seed_name=None, length=0):
-        eng = kdrv.Engine(workdir=ctx.work)
+        eng = new_engine(ctx.work)
         try:
             run_ = Runner(ctx, eng)
             if script is not None:
@@ -885,7 +955,7 @@ def replay(ctx, data):
     if not events:
         print('replay file holds no history')
         return 2
-    eng = kdrv.Engine(workdir=ctx.work)
+    eng = new_engine(ctx.work)
     try:
         run_ = Runner(NullCtx(ctx.work), eng)
         replay_events(run_, events)
